@@ -249,27 +249,20 @@ func init() {
 		},
 		"sort.Sort": func(e *Exec, st *State, call *ast.CallExpr, recv Term, args []Term) []Term {
 			// sort.Sort(T(x)) where T is a slice type implementing sort.Interface: x becomes a rearrangement of
-			// itself (the order established is that of T.Less and is not interpreted here)
+			// itself (bijection witness); the order is known when T.Less compares one integer field of the
+			// pointed-to elements, otherwise it is not interpreted
 			arg := call.Args[0]
 			if c, ok := arg.(*ast.CallExpr); ok && len(c.Args) == 1 {
 				if tv, ok := e.tvOf(c.Fun); ok && tv.IsType() {
 					arg = c.Args[0]
 				}
 			}
-			loc := e.lvalOf(st, arg)
-			s := loc.get(st)
-			if !strings.HasPrefix(s.Sort, "Sl_") {
-				e.unsupported(call.Pos(), "sort.Sort of %s", s.Sort)
-				return nil
+			key := e.lessFieldKey(call.Args[0])
+			if key == "" {
+				// an uninterpreted comparator must not be mistaken for integer order
+				return sortModelKey(e, st, call, arg, "?")
 			}
-			na := e.Ctx.Fresh("sorted", ArraySort(SInt, e.S.sliceElem(s.Sort)))
-			ln := e.S.SlLen(s)
-			e.Ctx.Assume(st.PC, e.permPred(na, e.S.SlArr(s), ln))
-			// every element of the result is an element of the input
-			e.Ctx.Assume(st.PC, Term{fmt.Sprintf("(forall ((i Int)) (! (=> (and (<= 0 i) (< i %s)) (exists ((j Int)) (and (<= 0 j) (< j %s) (= (select %s i) (select %s j))))) :pattern ((select %s i))))", ln.S, ln.S, na.S, e.S.SlArr(s).S, na.S), SBool})
-			e.noteSliceWrite(st, call, arg)
-			loc.set(st, e.S.MkSlice(s.Sort, na, ln, e.S.SlNil(s)))
-			return nil
+			return sortModelKey(e, st, call, arg, key)
 		},
 		"sort.(IntSlice).Sort": func(e *Exec, st *State, call *ast.CallExpr, recv Term, args []Term) []Term {
 			// x.Sort() sorts the slice held in x in place (the value receiver shares the backing array)
@@ -322,6 +315,12 @@ func sprintfModel(e *Exec, st *State, call *ast.CallExpr, args []Term) Term {
 // given by the less closure s[i] < s[j] (integers) — any other comparator makes the result unconstrained
 // apart from being a permutation.
 func sortModel(e *Exec, st *State, call *ast.CallExpr, x ast.Expr) []Term {
+	return sortModelKey(e, st, call, x, "")
+}
+
+// sortModelKey: as sortModel; when key is the heap key of an integer field, the elements are pointers and the
+// order established is ascending in that field.
+func sortModelKey(e *Exec, st *State, call *ast.CallExpr, x ast.Expr, key string) []Term {
 	loc := e.lvalOf(st, x)
 	s := loc.get(st)
 	if !strings.HasPrefix(s.Sort, "Sl_") {
@@ -341,7 +340,12 @@ func sortModel(e *Exec, st *State, call *ast.CallExpr, x ast.Expr) []Term {
 	// every element of the input occurs in the output, at the position given by the inverse permutation
 	e.Ctx.Assume(st.PC, Term{fmt.Sprintf("(forall ((j Int)) (! (=> (and (<= 0 j) (< j %s)) (= (select %s (select %s j)) (select %s j))) :pattern ((select %s j))))",
 		ln.S, na.S, pi.S, e.S.SlArr(s).S, e.S.SlArr(s).S), SBool})
-	if es == SInt && isIntLess(e, call) {
+	if key == "?" {
+		// order not interpreted
+	} else if key != "" {
+		fa := e.heapGet(st, key)
+		e.Ctx.Assume(st.PC, Term{fmt.Sprintf("(forall ((i Int) (j Int)) (! (=> (and (<= 0 i) (<= i j) (< j %s)) (<= (select %s (select %s i)) (select %s (select %s j)))) :pattern ((select %s i) (select %s j))))", ln.S, fa.S, na.S, fa.S, na.S, na.S, na.S), SBool})
+	} else if es == SInt && isIntLess(e, call) {
 		e.Ctx.Assume(st.PC, Term{fmt.Sprintf("(forall ((i Int) (j Int)) (! (=> (and (<= 0 i) (<= i j) (< j %s)) (<= (select %s i) (select %s j))) :pattern ((select %s i) (select %s j))))", ln.S, na.S, na.S, na.S, na.S), SBool})
 	}
 	e.Ctx.Assume(st.PC, e.permPred(na, e.S.SlArr(s), ln))
@@ -379,6 +383,70 @@ func isIntLess(e *Exec, call *ast.CallExpr) bool {
 func identName(x ast.Expr) string {
 	if id, ok := x.(*ast.Ident); ok {
 		return id.Name
+	}
+	return ""
+}
+
+// lessFieldKey: for sort.Sort(x) where the static type of x is a named slice of pointers whose Less method is
+// `return a[i].F < a[j].F` for an integer field F, the heap key of F (the order sort.Sort then establishes).
+func (e *Exec) lessFieldKey(arg ast.Expr) string {
+	t := e.typeOf(arg)
+	n, ok := t.(*types.Named)
+	if !ok {
+		return ""
+	}
+	var less *FuncInfo
+	for i := 0; i < n.NumMethods(); i++ {
+		if n.Method(i).Name() == "Less" {
+			less = e.P.Funcs[n.Method(i)]
+		}
+	}
+	if less == nil || less.Decl.Body == nil || len(less.Decl.Body.List) != 1 {
+		return ""
+	}
+	r, ok := less.Decl.Body.List[0].(*ast.ReturnStmt)
+	if !ok || len(r.Results) != 1 {
+		return ""
+	}
+	b, ok := r.Results[0].(*ast.BinaryExpr)
+	if !ok || b.Op.String() != "<" {
+		return ""
+	}
+	sx, ok1 := b.X.(*ast.SelectorExpr)
+	sy, ok2 := b.Y.(*ast.SelectorExpr)
+	if !ok1 || !ok2 || sx.Sel.Name != sy.Sel.Name {
+		return ""
+	}
+	ix, ok1 := sx.X.(*ast.IndexExpr)
+	iy, ok2 := sy.X.(*ast.IndexExpr)
+	if !ok1 || !ok2 {
+		return ""
+	}
+	params := less.Decl.Type.Params.List
+	var pn []string
+	for _, p := range params {
+		for _, nm := range p.Names {
+			pn = append(pn, nm.Name)
+		}
+	}
+	if len(pn) != 2 || identName(ix.Index) != pn[0] || identName(iy.Index) != pn[1] {
+		return ""
+	}
+	sl, ok := n.Underlying().(*types.Slice)
+	if !ok || !isPointer(sl.Elem()) {
+		return ""
+	}
+	elem := sl.Elem().Underlying().(*types.Pointer).Elem()
+	su := structOf(elem)
+	if su == nil {
+		return ""
+	}
+	for i := 0; i < su.NumFields(); i++ {
+		if su.Field(i).Name() == sx.Sel.Name {
+			if _, _, isInt := intRange(su.Field(i).Type()); isInt {
+				return e.fieldKey(elem, su.Field(i))
+			}
+		}
 	}
 	return ""
 }
